@@ -3,3 +3,13 @@ check('C06',
   'Trusted: Kani/CBMC, rustc MIR, std containers (swapped for association lists under cfg(kani)); bounds: i16 loads, pivot state symbolic; see evidence.bounds',
   'Kani/CBMC bounded model checking of in-crate harnesses over kani::any() inputs; MIR->SMT (z3) for fold closures',
   'DESIGN.md section 3 C06')
+check('C09',
+  'Bounded model checking of the comparison kernels in the real code: InsertionCost cmp/eq/partial_cmp satisfy reflexivity, antisymmetry, transitivity and totality for every f64 bit pattern (NaN, infinities, both zeros) and equal the lexicographic order with missing trailing components = 0 on plain values; + and - are element-wise with length = max and inverse to each other up to the sign of zero on integer-valued components |v|<=2^24 (for arbitrary floats the identity is false by IEEE rounding, so it is not demanded); dominance_order is reflexive and antisymmetric. Lengths are case-split concretely (0..3 quick, up to the inline capacity 6 thorough).',
+  'Trusted: Kani/CBMC, rustc MIR, tinyvec as compiled. Goals assembled in goal_reader.rs and fitness extraction from real solutions are outside; the single-layer goal comparator is decided by the MIR->SMT engine when present.',
+  'Kani/CBMC bounded model checking of in-crate harnesses over kani::any() inputs',
+  'DESIGN.md section 3 C09')
+check('C15',
+  'The thread schedule of rayon fold/reduce is turned into data: the result is the reducer applied along some binary tree with identity elements inserted anywhere. Decided by CBMC on the real reducer InsertionResult::choose_best_result (and the default ResultSelector::select_cost): for every pair of operands (Success/Failure, symbolic costs of any bit pattern, lengths case-split) the winner carries the minimal cost, a Failure never beats a Success, make_failure() is neutral on the cost; and for three leaves both tree shapes give the minimum. With the total order of C09 the pair lemma implies independence for any number of leaves. Full solver runs under parallelism and the per-leaf evaluation fold are outside.',
+  'Trusted: rayon implements its documented fold/reduce contract; thread_pool_execute indexing; Arc::drop_slow stubbed to a no-op (payload leaked) in these harnesses.',
+  'Kani/CBMC bounded model checking of the reducer algebra (schedule = reduction tree made symbolic)',
+  'DESIGN.md section 3 C15')
